@@ -1,0 +1,72 @@
+//go:build verif
+
+// Contracts for the deductive verification kept in /verif (govc). This file is
+// compiled only with the "verif" build tag and contains no code: every
+// contract lives in a comment block and is read by the verifier together with
+// the real source of this package.
+
+package changelog
+
+/*@
+
+// ---------- C17: entries or an error, never a silently shortened list; C18: total ----------
+
+// the blank characters trim() removes: a run of blank lines is a string made of these only
+pure func isblk(c int) bool { c == 10 || c == 13 || c == 9 || c == 32 }
+
+// a blank character of a line that is a piece of the remaining input is a blank character of the original input
+lemma blk_shift(line string, rem string, orig string, c int, k int)
+  requires c <= k && k < c + len(line) && isblk(line[k - c]) && line[k - c] == rem[k - c] && rem[k - c] == orig[k]
+  ensures isblk(orig[k])
+
+func trim
+  ensures (len(result) == 0) == (forall k int :: 0 <= k && k < len(line) ==> isblk(line[k]))
+
+func partition
+  requires len(delim) >= 1
+
+// the next line of the input, also when the last line has no final newline; io.EOF only when nothing is left
+func readLine
+  requires reader != nil
+  ensures result1 == nil ==> len(result0) >= 1 && len(result0) <= len(old(reader.rem))
+  ensures result1 == nil ==> result0 == old(reader.rem)[:len(result0)] && reader.rem == old(reader.rem)[len(result0):]
+  ensures result1 == io.EOF ==> old(reader.rem) == "" && reader.rem == ""
+  ensures result1 != nil ==> reader.rem == ""
+  modifies reader.rem
+
+func ParseOne
+  requires reader != nil
+  // a value xor an error
+  ensures result1 != nil ==> result0 == nil
+  ensures result1 == nil ==> result0 != nil && fresh(result0)
+  // io.EOF marks a CLEAN end only: the input is exhausted and everything consumed since the previous entry was blank.
+  // Input that ends inside an entry therefore yields a different error, never io.EOF
+  ensures result1 == io.EOF ==> reader.rem == "" && (forall k int :: 0 <= k && k < len(old(reader.rem)) ==> isblk(old(reader.rem)[k]))
+  // an entry is returned only after input was consumed
+  ensures len(reader.rem) <= len(old(reader.rem))
+  ensures result1 == nil ==> len(reader.rem) < len(old(reader.rem))
+  modifies reader.rem
+  loop 1:
+    invariant reader != nil && len(reader.rem) <= len(old(reader.rem))
+    invariant forall j int :: len(old(reader.rem)) - len(reader.rem) <= j && j < len(old(reader.rem)) ==> old(reader.rem)[j] == reader.rem[j - (len(old(reader.rem)) - len(reader.rem))]
+    invariant forall k int :: 0 <= k && k < len(old(reader.rem)) - len(reader.rem) ==> isblk(old(reader.rem)[k])
+      by { forall k int { blk_shift(line, at(L1.head, reader.rem), old(reader.rem), len(old(reader.rem)) - len(at(L1.head, reader.rem)), k) } }
+    decreases len(reader.rem)
+  loop 2:
+    invariant -1 <= rangeindex && rangeindex < len(ranged()) && changeLog.Arguments != nil && reader != nil && len(reader.rem) < len(old(reader.rem))
+    decreases len(ranged()) - rangeindex
+  loop 3:
+    invariant reader != nil && len(reader.rem) < len(old(reader.rem)) && changeLog.Arguments != nil
+    decreases len(reader.rem)
+
+func Parse
+  // on error nothing is returned; success means the whole input was consumed up to a clean end
+  ensures result1 != nil ==> len(result0) == 0
+  loop 1:
+    invariant stream != nil
+    decreases len(stream.rem)
+
+property C17: lemma blk_shift, trim, partition, readLine, ParseOne, Parse
+property C18: trim, partition, readLine, ParseOne, Parse
+
+@*/
